@@ -1807,6 +1807,39 @@ _prev_builtin_minmax = TableWorld.call_builtin
 TableWorld.call_builtin = _tw_builtin_minmax
 
 
+colmin_pre = z3.Function('colmin_pre', CELL, I, I, I, R)     # (cells, nrows, ncols, j): least vecmin over columns < j (np.inf for j = 0)
+colmax_pre = z3.Function('colmax_pre', CELL, I, I, I, R)
+
+
+def _tw_globals_ext(self, eng, st, c):
+    out = _prev_globals_ext(self, eng, st, c)
+    a, m, n, j = fresh('a', CELL), fresh('m', I), fresh('n', I), fresh('j', I)
+    one = z3.IntVal(1)
+    inf = z3.Real('np_inf')
+    for pre, vec, pick, start in ((colmin_pre, vecmin, lambda x, y: z3.If(x <= y, x, y), inf),
+                                  (colmax_pre, vecmax, lambda x, y: z3.If(x >= y, x, y), -inf)):
+        st.assume(z3.ForAll([a, m, n], pre(a, m, n, 0) == start, patterns=[pre(a, m, n, 0)]),
+                  z3.ForAll([a, m, n, j], z3.Implies(j >= 0, pre(a, m, n, j + 1) == pick(pre(a, m, n, j), vec(a, m, n, one, j))),
+                            patterns=[z3.MultiPattern(pre(a, m, n, j), vec(a, m, n, one, j))]))
+    return out
+
+
+_prev_globals_ext = TableWorld.globals_for
+TableWorld.globals_for = _tw_globals_ext
+
+
+def _tw_spec_ext(self, eng, st, n, e, bound):
+    if n in ('colmin_pre', 'colmax_pre'):
+        m = st.node(eng.sev(e.args[0], st, bound))
+        sh = m.fields['_shape'].items
+        f = colmin_pre if n == 'colmin_pre' else colmax_pre
+        return VReal(f(m.fields['cell'].term, sh[0].term, sh[1].term, to_int(eng.sev(e.args[1], st, bound))))
+    return _prev_spec_ext(self, eng, st, n, e, bound)
+
+
+_prev_spec_ext = TableWorld.spec_call
+TableWorld.spec_call = _tw_spec_ext
+
 for _fn, _gh in (('min', 'vecmin'), ('max', 'vecmax')):
     contract(F, 'Table.' + _fn, tier='A', props=['C19'],
         types={'self': 'Obj:Table', 'axis': 'Str'},
@@ -1816,13 +1849,16 @@ for _fn, _gh in (('min', 'vecmin'), ('max', 'vecmax')):
             # per vector of the requested axis: the least / greatest of its non-zero cells
             "implies(%s, len(result) == (len(self._sample_ids) if axis == 'sample' else len(self._observation_ids)) and "
             "all(result[k] == %s(self._data, axis, k) for k in range(len(result))))" % (AX, _gh),
+            # whole table: the running minimum / maximum over the per-sample values, starting from +/- infinity
+            "implies(axis == 'whole', result == col%s_pre(self._data, self._data.shape[1]))" % _fn,
             "samecells(self._data, old(self._data.cell))",
         ],
         raises={'UnknownAxisError': ["not (%s or axis == 'whole')" % AX],
                 # a vector without a non-zero cell has no minimum / maximum
                 'ValueError': []},
         modifies=['self._data.*'],
-        loops={0: dict(header="for data in self.iter_data(dense=False)", invariant=[]),
+        loops={0: dict(header="for data in self.iter_data(dense=False)", invariant=[
+                   "%s_val == col%s_pre(self._data, __i0)" % (_fn, _fn), "not self._data.haszeros"]),
                1: dict(header="for idx, data in enumerate(self.iter_data(dense=False, axis=axis))", invariant=[
                    "all(%s_val[k] == %s(self._data, axis, k) for k in range(0, __i1))" % (_fn, _gh),
                    "len(%s_val) == (len(self._sample_ids) if axis == 'sample' else len(self._observation_ids))" % _fn,
